@@ -172,8 +172,9 @@ Definition full (t : inst) : list Z := zrange (npos t).
 (* OLCI / SLSTR nadir: scan_points only gives the LENGTH of the resampled swath;
    linspace(deg2rad(46.5), deg2rad(-22.1), len); times are zero *)
 Definition swath_angles (n : nat) (len : Z) : list (list (list Q)) :=
-  [ map (fun _ => map (linspace (465 # 10) (- (221 # 10)) len) (zrange len)) (seq 0 n);
-    map (fun _ => map (fun _ => 0) (zrange len)) (seq 0 n) ].
+  let row := map (linspace (465 # 10) (- (221 # 10)) len) (zrange len) in
+  let zero := map (fun _ => 0) (zrange len) in
+  [ map (fun _ => row) (seq 0 n); map (fun _ => zero) (seq 0 n) ].
 Definition swath_times (n : nat) (len : Z) : list (list Z) :=
   map (fun _ => map (fun _ => 0%Z) (zrange len)) (seq 0 n).
 
@@ -213,9 +214,11 @@ Definition row_hash (r : list Z) : Z * Z :=
 
 (* printed per case: angle planes as rle of rows of rle of reduced rationals;
    times as rle over rows of (row length, digest, first, last) *)
-Definition show_angles (a : list (list (list Q))) : list (list (nat * list (nat * Q))) :=
-  map (fun plane => rle (list_eqb (fun x y => Nat.eqb (fst x) (fst y) && Qeqb (snd x) (snd y)))
-                        (map (fun row => rle Qeqb (map Qred row)) plane)) a.
+Definition show_angles (a : list (list (list Q))) : list (list (nat * list (nat * (Z * Z)))) :=
+  map (fun plane => rle (list_eqb (fun x y => Nat.eqb (fst x) (fst y) && (fst (snd x) =? fst (snd y))%Z
+                                                && (snd (snd x) =? snd (snd y))%Z))
+                        (map (fun row => map (fun kq => (fst kq, (Qnum (snd kq), Zpos (Qden (snd kq)))))
+                                             (rle Qeqb (map Qred row))) plane)) a.
 Definition show_times (tm : list (list Z)) : list (nat * (nat * (Z * Z) * Z * Z)) :=
   map (fun kr => let r := snd kr in (fst kr, (length r, row_hash r, hd 0%Z r, last r 0%Z)))
       (rle (list_eqb Z.eqb) tm).
